@@ -423,14 +423,9 @@ func main() {
 	reported := 0
 	knownPrinted := map[string]bool{}
 	sort.SliceStable(c.Viol, func(i, j int) bool { return len(fmt.Sprint(c.Viol[i].Case)) < len(fmt.Sprint(c.Viol[j].Case)) })
+	// recorded findings first; `concrete` counts the violations with a failing input that are NOT
+	// recorded (a broken proof is reported on its own unless such an input is reported instead)
 	concrete := 0
-	for _, v := range c.Viol {
-		if v.Kind != "proof" && v.Kind != "correspondence" {
-			concrete++
-		}
-	}
-	os.MkdirAll(filepath.Join(*root, "replays"), 0o755)
-	unknownCount := 0
 	for i := range c.Viol {
 		v := &c.Viol[i]
 		if cl, ok := classifiers[*prop]; ok {
@@ -442,6 +437,14 @@ func main() {
 				}
 			}
 		}
+		if v.Known == "" && v.Kind != "proof" && v.Kind != "correspondence" {
+			concrete++
+		}
+	}
+	os.MkdirAll(filepath.Join(*root, "replays"), 0o755)
+	unknownCount := 0
+	for i := range c.Viol {
+		v := &c.Viol[i]
 		if v.Known != "" {
 			if !knownPrinted[v.Known] {
 				knownPrinted[v.Known] = true
